@@ -405,7 +405,12 @@ def program_record(code):
     fdef = [n for n in tree.body if isinstance(n, ast.FunctionDef)][-1]
     params = [a.arg for a in fdef.args.args]
     ret = T("lit", "None")
-    for s in fdef.body:
+    # statements at module level (values that do not depend on the inputs) run before the function body
+    toplevel = [n for n in tree.body if not isinstance(n, (ast.Import, ast.ImportFrom)) and n is not fdef]
+    if any(not isinstance(n, (ast.Assign, ast.Expr)) for n in toplevel):
+        nested = True
+        toplevel = []
+    for s in toplevel + list(fdef.body):
         if isinstance(s, ast.Assign):
             t = s.targets[0]
             if isinstance(t, ast.Name):
